@@ -97,10 +97,17 @@ def run(chk: Check, eng: Engine) -> None:
     for f in eng.ix.all_functions:
         if not f.module.startswith(("fandango.language", "fandango.evolution", "fandango.constraints", "fandango.io")):
             continue
-        calls = [n for n in walk_local(f.node) if isinstance(n, ast.Assign) and len(n.targets) == 1 and isinstance(n.targets[0], ast.Name) and isinstance(n.value, ast.Call)
-                 and call_name(n.value) == "generate" and isinstance(n.value.func, ast.Attribute) and norm(n.value.func.value).split(".")[-1] in ("grammar", "self", "_grammar")]
+        def gen_call(v: ast.AST) -> Optional[ast.Call]:
+            """`<grammar>.generate(...)`, possibly with `.children` taken from it at once"""
+            if isinstance(v, ast.Attribute) and v.attr in ("children", "_children"):
+                v = v.value
+            if isinstance(v, ast.Call) and call_name(v) == "generate" and isinstance(v.func, ast.Attribute) and norm(v.func.value).split(".")[-1] in ("grammar", "self", "_grammar"):
+                return v
+            return None
+
+        calls = [n for n in walk_local(f.node) if isinstance(n, ast.Assign) and len(n.targets) == 1 and isinstance(n.targets[0], ast.Name) and gen_call(n.value) is not None]
         if f.cls is not gcls:
-            calls = [c for c in calls if norm(c.value.func.value) != "self"]  # self.generate of the search driver is another function
+            calls = [c for c in calls if norm(gen_call(c.value).func.value) != "self"]  # self.generate of the search driver is another function
         if not calls:
             continue
         cfg = eng.cfg(f)
@@ -136,7 +143,11 @@ def run(chk: Check, eng: Engine) -> None:
                 continue  # reported above; the sealing question of R16-b is moot for a value that comes out of a memo
             if not escapes:
                 raise AnalysisError(f"{f.fq}: the output of generate(...) neither escapes nor is attached")
-            seals = [l for l in sealing_loops(f.node) if isinstance(l.iter, ast.Attribute) and isinstance(l.iter.value, ast.Name) and l.iter.value.id == gvar and l.iter.attr in ("children", "_children")]
+            # gvar is the generated tree - sealed by a loop over `gvar.children` - or, when `.children` was taken at once, the list of children itself
+            is_children = isinstance(call.value, ast.Attribute)
+            seals = [l for l in sealing_loops(f.node) if
+                     (not is_children and isinstance(l.iter, ast.Attribute) and isinstance(l.iter.value, ast.Name) and l.iter.value.id == gvar and l.iter.attr in ("children", "_children"))
+                     or (is_children and isinstance(l.iter, ast.Name) and l.iter.id == gvar)]
             seal_nodes = [i for l in seals for i in cfg.nodes_of(l, {"for"})]
             direct = [n.id for n in cfg.nodes if n.kind == "stmt" and n.ast is not None and any(
                 isinstance(c, ast.Call) and call_name(c) == "set_all_read_only" and isinstance(c.func, ast.Attribute) and isinstance(c.func.value, ast.Name) and c.func.value.id == gvar
@@ -398,6 +409,8 @@ MUTANTS = [
     M("find-all-nodes-default-false", _T, "    def find_all_nodes(\n        self, symbol: NonTerminal, exclude_read_only: bool = True\n    )", "    def find_all_nodes(\n        self, symbol: NonTerminal, exclude_read_only: bool = False\n    )", "R16-e"),
 ]
 TWINS = [
+    M("twin-children-of-the-generated-tree-taken-at-once", "src/fandango/language/grammar/grammar.py", "        generated = self.generate(tree.nonterminal, tree.sources)\n        # Prevent children from being overwritten without executing generator\n        for child in generated.children:\n            child.set_all_read_only(True)\n        return generated.children\n",
+      "        generated_children = self.generate(tree.nonterminal, tree.sources).children\n        for child in generated_children:\n            child.set_all_read_only(True)\n        return generated_children\n", None),
     M("twin-regen-failure-reraised-with-context", _T, "            else:\n                new_tree.set_children(grammar.derive_generator_output(new_tree))\n",
       "            else:\n                try:\n                    new_tree.set_children(grammar.derive_generator_output(new_tree))\n                except Exception as e:\n                    raise type(e)(f\"{new_tree.symbol}: {e}\") from e\n", None),
     M("twin-repair-copy-renamed", "src/fandango/constraints/comparison.py", "source_copy", "copy_of_source", None, count=3),
